@@ -167,10 +167,13 @@ fn expand_struct_assertion(value_expr: &TokenStream, pattern: &PatternStruct) ->
     // (`User { name: == name, .. }` must compare with the caller's `name`).
     let field_bindings: Vec<_> = field_names.iter().map(hygienic_field_binding).collect();
 
-    let rest_pattern = if rest {
-        quote! { , .. }
-    } else {
+    let rest_pattern = if !rest {
         quote! {}
+    } else if field_names.is_empty() {
+        // `Path { .. }`: nothing to separate the rest marker from
+        quote! { .. }
+    } else {
+        quote! { , .. }
     };
 
     let field_assertions: Vec<_> = fields
